@@ -47,7 +47,12 @@ func (s *slState) snapshot() string {
 			if i > 0 {
 				b.WriteByte(',')
 			}
-			x, ok := l.Get(i).(int)
+			v := l.Get(i)
+			if v == nil {
+				b.WriteString("n") // a nil element (padding of a tree-form write behind the end)
+				continue
+			}
+			x, ok := v.(int)
 			if !ok {
 				b.WriteString("?")
 				continue
@@ -135,7 +140,16 @@ func (c *Ctx) slStep(s *slState) string {
 			return r.Intn(m)
 		}
 	}
-	switch r.Intn(14) {
+	switch r.Intn(16) {
+	case 14:
+		// a tree-form write: in place, at the end, or behind the end (padding with nil through Add)
+		i, v := idx(4), r.Intn(90)+10
+		c.slDo(s, fmt.Sprintf("settf %d %d %d", k, i, v), func() at.List { l.SetTF("#"+strconv.Itoa(i), v); return nil })
+		return "settf"
+	case 15:
+		i := idx(1)
+		c.slDo(s, fmt.Sprintf("unsettf %d %d", k, i), func() at.List { l.UnsetTF("#" + strconv.Itoa(i)); return nil })
+		return "unsettf"
 	case 0, 1, 2:
 		vs := c.slVals(1 + r.Intn(3))
 		c.slDo(s, fmt.Sprintf("add %d %s", k, ints(vs)), func() at.List { l.Add(anys(vs)...); return nil })
@@ -185,6 +199,12 @@ func (c *Ctx) slStep(s *slState) string {
 		c.slDo(s, fmt.Sprintf("subList %d %d %d", k, a, b), func() at.List { return l.SubList(a, b) })
 		return "subList"
 	case 12:
+		for i := 0; i < n; i++ {
+			if l.Get(i) == nil { // Sort dispatches on the kind of element 0 and drops the others: lists with padding are left to C17
+				c.slDo(s, fmt.Sprintf("reverse %d", k), func() at.List { l.Reverse(); return nil })
+				return "reverse"
+			}
+		}
 		c.slDo(s, fmt.Sprintf("sort %d", k), func() at.List { l.Sort(); return nil })
 		return "sort"
 	default:
@@ -258,6 +278,11 @@ func (c *Ctx) slicesStratum() {
 					c.slDo(s, "delete 0 0", func() at.List { l.Delete(0); return nil })
 				}
 				c.slDo(s, fmt.Sprintf("reverse %d", last), func() at.List { res.Reverse(); return nil })
+				// stale elements behind the length (left by Pop / Delete) never come back as padding
+				if n0 := l.Count(); true {
+					c.slDo(s, fmt.Sprintf("settf 0 %d 96", n0+2), func() at.List { l.SetTF("#"+strconv.Itoa(n0+2), 96); return nil })
+					c.slDo(s, fmt.Sprintf("unsettf 0 %d", n0), func() at.List { l.UnsetTF("#" + strconv.Itoa(n0)); return nil })
+				}
 				c.St.Eval(fmt.Sprintf("sl:%d:%d:%d", g, p, d), true)
 			}
 		}
